@@ -7,8 +7,8 @@
    index of the ENDTAG_ENDSCOPE just emitted and turns the open element into one body item
    of its parent.  Macros and slot fillers point at open elements or at recorded spans. *)
 From Coq Require Import Lia PeanoNat Sorted Permutation String.
-From PG Require Import Lib.Str Lib.StrFacts Model.TALProg Model.TALProgSpec Model.TALCompile
-                       Proofs.TALProgFacts Proofs.TALProgComplete Proofs.TALCompileFacts.
+From PG Require Import Lib.Str Lib.StrFacts Model.TALProg Model.TALProgSpec Model.TALCompile Model.TALVM
+                       Proofs.TALProgFacts Proofs.TALProgComplete Proofs.TALCompileFacts Proofs.TALVMFacts.
 
 (* ---- open elements (innermost first) ---- *)
 Record oframe : Type := mkF {
@@ -722,10 +722,12 @@ Proof.
     + constructor.
     + constructor; [unfold TAL_OPS; simpl; tauto|constructor].
     + constructor.
-    + intros op. unfold has_arg. simpl. destruct (Nat.eqb 7 op) eqn:E; split; intros X; auto.
-      * apply Nat.eqb_eq in E. now left.
-      * discriminate X.
-      * destruct X as [X|[]]. apply Nat.eqb_neq in E. congruence.
+    + intros op. destruct (Nat.eq_dec op 7) as [->|Hne].
+      * split; intros _; [now left | reflexivity].
+      * split; intros X.
+        -- exfalso. unfold has_arg in X. simpl in X.
+           destruct op as [|[|[|[|[|[|[|[|]]]]]]]]; try discriminate X. congruence.
+        -- destruct X as [X|[]]. unfold OP_OMITTAG in X. congruence.
   - split; [|split; [|split; [|split]]]; simpl; try constructor.
     + intros X; discriminate X.
     + intros [].
@@ -737,10 +739,9 @@ Lemma parse_start_tag_inv tag a s s' :
 Proof.
   intros I H. unfold parse_start_tag in H.
   match type of H with context [scan_atts repaired ?tn ?px a ?sx] =>
-    set (talns := tn) in *; set (prefix := px) in *; set (sc0 := sx) in * end.
-  assert (I0 : ScanInv sc0) by apply scan0_inv.
-  destruct (scan_atts repaired talns prefix a sc0) as [sc| |] eqn:Es; try discriminate.
-  pose proof (scan_atts_inv talns prefix a sc0 sc I0 Es) as (N1 & N2 & F1 & F2 & HA).
+    assert (I0 : ScanInv sx) by apply scan0_inv;
+    destruct (scan_atts repaired tn px a sx) as [sc| |] eqn:Es; try discriminate H;
+    pose proof (scan_atts_inv tn px a sx sc I0 Es) as (N1 & N2 & F1 & F2 & HA) end.
   simpl v_dup in H. simpl andb in H.
   destruct (has_arg OP_CONTENT sc && has_arg OP_REPLACE sc) eqn:E45; [discriminate|].
   assert (H45 : ~ (In 4%nat (sc_tal sc) /\ In 5%nat (sc_tal sc))).
@@ -763,23 +764,23 @@ Proof.
     assert (Hn : ncmds s1 = length (prog_of s)) by (rewrite prog_len; reflexivity).
     rewrite Hn in Ec.
     destruct (stmts_loop (prog_of s) (cs_syms s) (cs_stack s) (S (cs_sym s)) (subs_of s) tag (sc_clean sc) (sc_orig sc) (sc_args sc)
-                _ true s1 [] 0 first s2) as (hd & lo & L1 & L2 & L3 & L4 & L5 & L6 & L7); [| |exact Ec|].
-    - repeat split; auto. intros sb Hsb. now left.
+                (sort_nat (sc_metal sc) ++ sort_nat (sc_tal sc)) true s1 [] 0 first s2) as (hd & lo & L1 & L2 & L3 & L4 & L5 & L6 & L7); [| |exact Ec|].
+    - unfold LS. split; [reflexivity|]. split; [reflexivity|]. split; [intros sb Hsb; now left|]. split; [reflexivity|].
+      split; [constructor|]. split; [intros c k []|]. repeat split; reflexivity.
     - apply ops_ok_sorted; auto.
     - destruct first.
       + destruct L7 as (P & St & ->). apply COk_inj in Hr. subst r.
         unfold add_tag. rewrite add_command_other by (intros x; discriminate). rewrite add_command_other by (intros x; discriminate).
         simpl cs_stack. unfold SInv, prog_of, subs_of, slots_of. simpl.
         rewrite <- !app_assoc. simpl. rewrite map_app. simpl. fold (prog_of s2). rewrite P, L1, L2, St.
-        apply (InvE_open (cs_stack s) (prog_of s) (cs_syms s) (cs_sym s) (subs_of s) _ _ (CStartScope [] []) [] (CStartTag [] false)); auto.
-        * intros c k [].
-        * intros sb Hsb. apply L3. exact Hsb.
+        apply (InvE_open (cs_stack s) (prog_of s) (cs_syms s) (cs_sym s) (subs_of s) _ _ (CStartScope [] []) [] (CStartTag [] false)); auto;
+          try (intros c k []); try (intros sb Hsb; apply L3; exact Hsb).
       + destruct L7 as (loc & P & St). apply COk_inj in Hr. subst r.
         rewrite add_command_other by (intros x; discriminate).
         simpl cs_stack. unfold SInv, prog_of, subs_of, slots_of. simpl.
         rewrite map_app. simpl. fold (prog_of s2). rewrite P, L1, L2, St. rewrite <- app_assoc. simpl.
-        apply (InvE_open (cs_stack s) (prog_of s) (cs_syms s) (cs_sym s) (subs_of s) _ _ (CStartScope [] []) hd (CStartTag [] false)); auto.
-        intros sb Hsb. apply L3. exact Hsb. }
+        apply (InvE_open (cs_stack s) (prog_of s) (cs_syms s) (cs_sym s) (subs_of s) _ _ (CStartScope [] []) hd (CStartTag [] false)); auto;
+          try (intros sb Hsb; apply L3; exact Hsb). }
   destruct (sc_tal sc) as [|t0 tr] eqn:Et; [destruct (sc_metal sc) as [|m0 mr] eqn:Em|].
   - (* no TAL/METAL attribute at all *)
     apply COk_inj in H. subst s'. unfold add_tag. rewrite add_command_stack. simpl cs_stack.
@@ -787,3 +788,90 @@ Proof.
   - apply Gen. exact H.
   - apply Gen. exact H.
 Qed.
+
+(* ---- events ---- *)
+Lemma handle_starttag_inv tag a s s' :
+  SInv (cs_stack s) s -> handle_starttag repaired tag a s = COk s' -> SInv (cs_stack s') s'.
+Proof.
+  intros I H. unfold handle_starttag in H.
+  destruct (parse_start_tag repaired tag (norm_atts a) s) as [s1| |] eqn:E; try discriminate.
+  pose proof (parse_start_tag_inv _ _ _ _ I E) as I1.
+  destruct (forbidden_endtag tag); [|apply COk_inj in H; now subst].
+  unfold pop_tag in H. eapply pop_tag_loop_inv; eauto.
+Qed.
+
+Lemma handle_endtag_inv tag s s' :
+  SInv (cs_stack s) s -> handle_endtag tag s = COk s' -> SInv (cs_stack s') s'.
+Proof.
+  intros I H. unfold handle_endtag in H. destruct (forbidden_endtag tag); [apply COk_inj in H; now subst|].
+  unfold pop_tag in H. eapply pop_tag_loop_inv; eauto.
+Qed.
+
+Lemma handle_event_inv ev s s' :
+  SInv (cs_stack s) s -> handle_event repaired ev s = COk s' -> SInv (cs_stack s') s'.
+Proof.
+  intros I H. destruct ev as [tag a|tag a|tag|d cd|d|d|d]; cbn [handle_event] in H.
+  - eapply handle_starttag_inv; eauto.
+  - destruct (handle_starttag repaired tag a s) as [s1| |] eqn:E; try discriminate.
+    pose proof (handle_starttag_inv _ _ _ _ I E) as I1.
+    destruct (forbidden_endtag tag); [apply COk_inj in H; now subst|]. eapply handle_endtag_inv; eauto.
+  - eapply handle_endtag_inv; eauto.
+  - apply COk_inj in H. subst s'. rewrite add_command_stack. now apply SInv_out.
+  - apply COk_inj in H. subst s'. rewrite add_command_stack. now apply SInv_out.
+  - apply COk_inj in H. subst s'. rewrite add_command_stack. now apply SInv_out.
+  - apply COk_inj in H. subst s'. rewrite add_command_stack. now apply SInv_out.
+Qed.
+
+Lemma handle_events_inv : forall evs s s',
+  SInv (cs_stack s) s -> handle_events repaired evs s = COk s' -> SInv (cs_stack s') s'.
+Proof.
+  induction evs as [|ev r IH]; intros s s' I H; simpl in H.
+  - apply COk_inj in H. now subst.
+  - destruct (handle_event repaired ev s) as [s1| |] eqn:E; try discriminate.
+    eapply IH; [|exact H]. eapply handle_event_inv; eauto.
+Qed.
+
+Lemma SInv_initial : SInv (cs_stack cs0) cs0.
+Proof.
+  exists [], [], []. split; [|split; [|split; [|split; [|split]]]]; simpl.
+  - split; [reflexivity|]. split; [apply wsi_nil | exact I].
+  - reflexivity.
+  - constructor.
+  - intros k [].
+  - intros k v H. discriminate H.
+  - intros sb [].
+Qed.
+
+Lemma talsyms_nil stk :
+  existsb (fun t => match te_sym t with Some _ => true | None => false end) stk = false -> talsyms stk = [].
+Proof.
+  induction stk as [|t r IH]; simpl; [reflexivity|]. unfold talsyms. simpl.
+  destruct (te_sym t); simpl; [discriminate|]. exact IH.
+Qed.
+
+(* every program the repaired compiler emits is structurally well formed *)
+Theorem compile_wf : compile_wf_statement.
+Proof.
+  unfold compile_wf_statement. intros es p t m H. unfold compile in H.
+  destruct (handle_events repaired es cs0) as [s| |] eqn:E; try discriminate.
+  simpl v_eof in H. simpl andb in H.
+  destruct (existsb _ (cs_stack s)) eqn:Ex; [discriminate|].
+  apply COk_inj in H. inversion H; subst p t m. clear H.
+  pose proof (handle_events_inv es cs0 s SInv_initial E) as I.
+  destruct (InvE_final _ _ _ _ _ (talsyms_nil _ Ex) I) as (spans & W & Hs).
+  apply (wf_program_complete _ _ _ spans).
+  - exact W.
+  - intros sb Hsb. apply Hs. unfold all_subs in Hsb. unfold subs_of, slots_of.
+    apply in_app_or in Hsb. apply in_or_app. destruct Hsb as [Hsb|Hsb]; [now left | right].
+    unfold prog_slots in Hsb. apply in_flat_map in Hsb. destruct Hsb as (c & Hc & Hsb).
+    apply in_flat_map. exists c. split; [now apply in_rev | exact Hsb].
+Qed.
+
+(* hence the scope discipline holds for whatever the compiler accepts *)
+Corollary context_restored_compiled :
+  forall (es : list event) (p : program) (t : symtab) (m : macrotab), compile repaired es = COk (p, (t, m)) ->
+  forall (D : Type) o_cond o_rep o_val o_mac o_upd (fuel : nat) (c : ctx) (d : D),
+    vm_run p t (all_subs p m) D o_cond o_rep o_val o_mac o_upd fuel c d <> Stuck /\
+    forall mf, vm_run p t (all_subs p m) D o_cond o_rep o_val o_mac o_upd fuel c d = Done mf ->
+      c_sc (cx D mf) = c_sc c /\ sstack D mf = [] /\ pc D mf = length p.
+Proof. intros es p t m H. apply context_restored. exact (compile_wf es p t m H). Qed.
